@@ -41,6 +41,7 @@ package signaling_rpc_server
 // peer's ID, and only when the message's epoch equals the session's; a newer epoch is an error.
 //@ func (*Server).Session$2
 //@   noframe
+//@   cs Server.mtx ensures forall t *sessionTracker trigger t.seqno :: old(isobj(t)) && t.seqno != old(t.seqno) ==> (t.peerA != nil ==> t.peerA.recv == nil && t.peerA.recvSent == nil) && (t.peerB != nil ==> t.peerB.recv == nil && t.peerB.recvSent == nil)
 //@   cs Server.mtx ensures forall t *sessionTracker trigger t.wait :: old(isobj(t)) && (t.seqno != old(t.seqno) || t.peerA != old(t.peerA) || t.peerB != old(t.peerB) || t.wait != old(t.wait)) ==> old(t.wait) == nil || chanClosed[old(t.wait)]
 //@   requires isobj(s) && isobj(sess) && isobj(ourPeerTkr)
 //@   requires sendMsg == nil || (isobj(sendMsg) && (sendMsg.SignedMsg == nil || isobj(sendMsg.SignedMsg)))
@@ -57,6 +58,7 @@ package signaling_rpc_server
 // that number. No pending message is touched.
 //@ func (*Server).Session$3
 //@   noframe
+//@   cs Server.mtx ensures forall t *sessionTracker trigger t.seqno :: old(isobj(t)) && t.seqno != old(t.seqno) ==> (t.peerA != nil ==> t.peerA.recv == nil && t.peerA.recvSent == nil) && (t.peerB != nil ==> t.peerB.recv == nil && t.peerB.recvSent == nil)
 //@   cs Server.mtx ensures forall t *sessionTracker trigger t.wait :: old(isobj(t)) && (t.seqno != old(t.seqno) || t.peerA != old(t.peerA) || t.peerB != old(t.peerB) || t.wait != old(t.wait)) ==> old(t.wait) == nil || chanClosed[old(t.wait)]
 //@   requires isobj(s) && isobj(sess) && isobj(ourPeerTkr)
 //@   cs Server.mtx ensures forall t *sessionPeerTracker trigger t.recv :: old(isobj(t)) ==> t.recv == old(t.recv) && t.recvClear == old(t.recvClear)
@@ -69,6 +71,7 @@ package signaling_rpc_server
 // number; a transmission record is turned into a clear notice only if it names exactly that number.
 //@ func (*Server).Session$4
 //@   noframe
+//@   cs Server.mtx ensures forall t *sessionTracker trigger t.seqno :: old(isobj(t)) && t.seqno != old(t.seqno) ==> (t.peerA != nil ==> t.peerA.recv == nil && t.peerA.recvSent == nil) && (t.peerB != nil ==> t.peerB.recv == nil && t.peerB.recvSent == nil)
 //@   cs Server.mtx ensures forall t *sessionTracker trigger t.wait :: old(isobj(t)) && (t.seqno != old(t.seqno) || t.peerA != old(t.peerA) || t.peerB != old(t.peerB) || t.wait != old(t.wait)) ==> old(t.wait) == nil || chanClosed[old(t.wait)]
 //@   requires isobj(s) && isobj(sess) && isobj(ourPeerTkr)
 //@   cs Server.mtx ensures forall t *sessionPeerTracker trigger t.recv :: old(isobj(t)) && t.recv != old(t.recv) ==> t.recv == nil && old(t.recv) != nil && old(t.recv.Seqno) == clear && msgSessionSeqno == old(sess.seqno)
@@ -117,19 +120,17 @@ package signaling_rpc_server
 //@   nosweep nil-deref
 //@   requires isobj(s)
 //@   cs Server.mtx#1 ensures (pidStr in self.peers) && self.peers[pidStr] == tkr && tkr.listening && tkr.listenNonce == listenNonce
+// Cleanup (the deferred closure, run inline at every return): if this call is still the current
+// listener of the registered tracker, the tracker is no longer marked listened-to and stays
+// registered only if some peer wants a session with it; otherwise nothing is changed. No section
+// ever modifies a tracker other than the one this call registered.
+//@   cs Server.mtx#defer ensures old((pidStr in self.peers) && self.peers[pidStr] == tkr && tkr.listenNonce == listenNonce) ==> !tkr.listening && ((pidStr in self.peers) ==> self.peers[pidStr] == tkr && len(tkr.wantPeers) != 0)
+//@   cs Server.mtx#defer ensures !old((pidStr in self.peers) && self.peers[pidStr] == tkr && tkr.listenNonce == listenNonce) ==> tkr.listening == old(tkr.listening) && tkr.listenNonce == old(tkr.listenNonce) && ((pidStr in self.peers) <==> old(pidStr in self.peers)) && self.peers[pidStr] == old(self.peers[pidStr])
+//@   cs Server.mtx ensures forall t *serverPeerTracker trigger t.listening :: old(isobj(t)) && t != tkr ==> t.listening == old(t.listening) && t.wantPeers == old(t.wantPeers) && t.listenNonce == old(t.listenNonce)
 //@   cs Server.mtx ensures forall p string trigger dom(self.peers, p) :: p != pidStr ==> ((p in self.peers) <==> old(p in self.peers)) && self.peers[p] == old(self.peers[p])
 //@   cs Server.mtx ensures forall t *serverPeerTracker trigger t.listening :: old(isobj(t)) && (!old(pidStr in self.peers) || t != old(self.peers[pidStr])) ==> t.listening == old(t.listening) && t.wantPeers == old(t.wantPeers) && t.listenNonce == old(t.listenNonce)
 
-// Cleanup of a Listen call (deferred closure): other peers' entries and trackers are left alone; if
-// this call was still the current listener, its tracker is no longer marked listened-to and stays
-// registered only if some peer wants a session with it.
-//@ func (*Server).Listen$1
-//@   noframe
-//@   requires isobj(s) && isobj(tkr)
-//@   cs Server.mtx ensures forall p string trigger dom(self.peers, p) :: p != pidStr ==> ((p in self.peers) <==> old(p in self.peers)) && self.peers[p] == old(self.peers[p])
-//@   cs Server.mtx ensures forall t *serverPeerTracker trigger t.listening :: old(isobj(t)) && t != tkr ==> t.listening == old(t.listening) && t.wantPeers == old(t.wantPeers) && t.listenNonce == old(t.listenNonce)
-//@   cs Server.mtx ensures old((pidStr in self.peers) && self.peers[pidStr] == tkr && tkr.listenNonce == listenNonce) ==> !tkr.listening && ((pidStr in self.peers) ==> self.peers[pidStr] == tkr && len(tkr.wantPeers) != 0)
-//@   cs Server.mtx ensures !old((pidStr in self.peers) && self.peers[pidStr] == tkr && tkr.listenNonce == listenNonce) ==> tkr.listening == old(tkr.listening) && tkr.listenNonce == old(tkr.listenNonce) && ((pidStr in self.peers) <==> old(pidStr in self.peers)) && self.peers[pidStr] == old(self.peers[pidStr])
+
 
 // ---- the session table ----
 //@ lockinv Server.mtx: forall k sessionKey trigger dom(self.sessions, k) :: (k in self.sessions) ==> isobj(self.sessions[k])
@@ -168,6 +169,9 @@ package signaling_rpc_server
 //@   noframe
 //@   nosweep nil-deref
 //@   requires isobj(s)
+// No message crosses an epoch: whenever a section changes a session's epoch, no attached end is left
+// with a pending or in-flight message.
+//@   cs Server.mtx ensures forall t *sessionTracker trigger t.seqno :: old(isobj(t)) && t.seqno != old(t.seqno) ==> (t.peerA != nil ==> t.peerA.recv == nil && t.peerA.recvSent == nil) && (t.peerB != nil ==> t.peerB.recv == nil && t.peerB.recvSent == nil)
 //@   cs Server.mtx#1 ensures (sessKey in self.sessions) && self.sessions[sessKey] == sess && (localIsPeerA ==> sess.peerA == ourPeerTkr) && (!localIsPeerA ==> sess.peerB == ourPeerTkr)
 //@   cs Server.mtx#1 ensures ourPeerTkr.recv == nil && ourPeerTkr.recvSent == nil && ourPeerTkr.recvClear == nil && ourPeerTkr.outAcked == nil
 //@   cs Server.mtx#1 ensures (dstPeerIDStr in self.peers) && self.peers[dstPeerIDStr] == dstPeer && (srcPeerIDStr in dstPeer.wantPeers)
@@ -196,6 +200,7 @@ package signaling_rpc_server
 // keys and other peers' entries are never touched.
 //@ func (*Server).Session$1
 //@   noframe
+//@   cs Server.mtx ensures forall t *sessionTracker trigger t.seqno :: old(isobj(t)) && t.seqno != old(t.seqno) ==> (t.peerA != nil ==> t.peerA.recv == nil && t.peerA.recvSent == nil) && (t.peerB != nil ==> t.peerB.recv == nil && t.peerB.recvSent == nil)
 //@   nosweep nil-deref
 //@   requires isobj(s) && isobj(sess) && isobj(ourPeerTkr) && isobj(dstPeer)
 //@   cs Server.mtx ensures forall t *sessionTracker trigger t.wait :: old(isobj(t)) && (t.seqno != old(t.seqno) || t.peerA != old(t.peerA) || t.peerB != old(t.peerB) || t.wait != old(t.wait)) ==> old(t.wait) == nil || chanClosed[old(t.wait)]
@@ -204,5 +209,10 @@ package signaling_rpc_server
 //@   cs Server.mtx ensures !old((localIsPeerA && sess.peerA == ourPeerTkr) || (!localIsPeerA && sess.peerB == ourPeerTkr)) ==> sess.seqno == old(sess.seqno) && sess.peerA == old(sess.peerA) && sess.peerB == old(sess.peerB)
 //@   cs Server.mtx ensures forall t *sessionPeerTracker trigger t.recv :: old(isobj(t)) ==> t.recvClear == old(t.recvClear) && t.outAcked == old(t.outAcked) && (t.recv == old(t.recv) || t.recv == nil) && (t.recvSent == old(t.recvSent) || t.recvSent == nil)
 //@   cs Server.mtx ensures forall t *sessionPeerTracker trigger t.recv :: old(isobj(t)) && (t.recv != old(t.recv) || t.recvSent != old(t.recvSent)) ==> old((localIsPeerA && sess.peerA == ourPeerTkr && sess.peerB == t) || (!localIsPeerA && sess.peerB == ourPeerTkr && sess.peerA == t))
+//@   cs Server.mtx ensures old((localIsPeerA && sess.peerA == ourPeerTkr) || (!localIsPeerA && sess.peerB == ourPeerTkr)) ==> !(srcPeerIDStr in dstPeer.wantPeers)
 //@   cs Server.mtx ensures forall k sessionKey trigger dom(self.sessions, k) :: k != sessKey ==> ((k in self.sessions) <==> old(k in self.sessions)) && self.sessions[k] == old(self.sessions[k])
 //@   cs Server.mtx ensures forall p string trigger dom(self.peers, p) :: p != dstPeerIDStr ==> ((p in self.peers) <==> old(p in self.peers)) && self.peers[p] == old(self.peers[p])
+
+// The cleanup closure of Listen is executed inline at Listen's returns (see Listen's #defer clauses).
+//@ func (*Server).Listen$1
+//@   inline
